@@ -68,6 +68,25 @@ def lift_literals(text, table):
     return body[:pos] + decl + "\n" + body[pos:]
 
 
+def load_physics(project, tdir):
+    """naunet_physics + naunet_constants of a target (the .cu variants for cusparse)"""
+    kind = KIND[tdir]
+    ext = ".cu" if kind == "cusparse" else ".cpp"
+    tus = ["naunet_physics" + ext, "naunet_constants" + ext]
+    if kind != "cusparse":
+        return H.Loaded(project, tdir, tus=tus)
+    paths, errors = [], {}
+    for tu in tus:
+        ll, err = project.compile_ir(tdir, tu, extra_flags=("-include", os.path.join(H_SHIM_CUDA)), pre=cuda_pre, tag="cu")
+        if ll is None:
+            errors[tu] = err
+        else:
+            paths.append(ll)
+    L = H.Loaded(project, tdir, ir_paths=paths)
+    L.errors = errors
+    return L
+
+
 def load(project, tdir, what, with_rates=False, with_physics=False, extra=(), lift=False):
     kind = KIND[tdir]
     tus = list(_tus_for(kind, what))
